@@ -208,21 +208,32 @@ def m_rel(op):
         a, b = as_T(a), as_T(b)
         if a.shape != () or b.shape != () or a.fi or b.fi:
             raise Unsupported("conditions on non-scalars / indexed values are not modelled")
-        return Cnd(Ex("rel", op, a.get(), b.get()))
+        c = Cnd(Ex("rel", op, a.get(), b.get()))
+        c.tags.update(ufl_class=_REL_CLASS[op], ufl_operands=(a, b), _ufl_is_terminal_=False)
+        return c
 
     return model
 
 
+_REL_CLASS = {"==": "EQ", "!=": "NE", "<": "LT", ">": "GT", "<=": "LE", ">=": "GE"}
+
+
 def m_and(a, b):
-    return Cnd(Ex("and", a.ex, b.ex))
+    c = Cnd(Ex("and", a.ex, b.ex))
+    c.tags.update(ufl_class="AndCondition", ufl_operands=(a, b), _ufl_is_terminal_=False)
+    return c
 
 
 def m_or(a, b):
-    return Cnd(Ex("or", a.ex, b.ex))
+    c = Cnd(Ex("or", a.ex, b.ex))
+    c.tags.update(ufl_class="OrCondition", ufl_operands=(a, b), _ufl_is_terminal_=False)
+    return c
 
 
 def m_not(a):
-    return Cnd(Ex("not", a.ex))
+    c = Cnd(Ex("not", a.ex))
+    c.tags.update(ufl_class="NotCondition", ufl_operands=(a,), _ufl_is_terminal_=False)
+    return c
 
 
 def m_conditional(c, t, f):
